@@ -3,6 +3,8 @@ import Driver.Util
 import Driver.ExecIO
 import GqlgenVerif.Model.Introspect
 import GqlgenVerif.Model.IntroGate
+import GqlgenVerif.Model.IntroGateCfg
+import GqlgenVerif.Gen.ExtOrder
 /-! Line-protocol driver for C16. One line in (`<op> <json>`), one line out.
 
 * `mirror <schema>`  : the model's answer to the standard introspection query for the schema the harness
@@ -11,7 +13,10 @@ import GqlgenVerif.Model.IntroGate
                        (first differing component), and the `includeDeprecated: false` views
 * `schema <exec-schema>` : sets the execution-model schema for the following `gate` lines
 * `gate <runner result>` : the execution model with the introspection gate closed, on the document,
-                       variables and resolver log the generated server reported -/
+                       variables and resolver log the generated server reported
+* `cfg {exts, role, op}` : the configuration around the gate (`Model/IntroGateCfg.lean`): what the contract
+                       (`Spec.effective`: every kind of hook in registration order) and the code read through
+                       the REGENERATED facts (`Impl.effective Gen.ExtOrder.facts`) make of the request -/
 open Lean GqlgenVerif.Introspect
 open GqlgenVerif (TRef)
 namespace Driver.C16
@@ -259,6 +264,53 @@ def gate (s : GqlgenVerif.Schema) (j : Json) : String :=
           ("gated", Json.arr ((gatedKeys fields).map fun (k, n, nn) =>
               Json.mkObj [("key", k), ("name", n), ("nn", nn), ("msg", gateMsg n)]).toArray)]).compress
 
+/-! ### the configuration around the gate -/
+section
+open GqlgenVerif.IntroGate.Cfg
+
+def condOf (h : Json) : Cond :=
+  match str h "when" with
+  | "roleIs" => .roleIs (str h "arg")
+  | "roleIsNot" => .roleIsNot (str h "arg")
+  | "opIs" => .opIs (str h "arg")
+  | "opIsNot" => .opIsNot (str h "arg")
+  | _ => .always
+
+def actOf (h : Json) : Act :=
+  match str h "do" with
+  | "set" => .set (bool h "b")
+  | "flip" => .flip
+  | "fail" => .fail (str h "s")
+  | _ => .keep
+
+/-- `setQuery` (the query arrives through the parameter mutator) does not touch what the gate decides on -/
+def pactOf (h : Json) : PAct :=
+  match str h "do" with
+  | "setRole" => .setRole (str h "s")
+  | "fail" => .fail (str h "s")
+  | _ => .keep
+
+def extOf (j : Json) : Ext :=
+  if str j "type" == "introspection" then { ctx := some .introspection }
+  else
+    { param := (obj? j "param").map fun h => (condOf h, pactOf h),
+      ctx := (obj? j "ctx").map fun h => .user (condOf h) (actOf h),
+      around := (obj? j "around").map fun h => (condOf h, actOf h) }
+
+def outcomeJson : Outcome → Json
+  | .rejected m => Json.mkObj [("k", "rejected"), ("msg", m)]
+  | .denied m => Json.mkObj [("k", "denied"), ("msg", m)]
+  | .run d => Json.mkObj [("k", "run"), ("disable", d)]
+  | .unmodelled => Json.mkObj [("k", "unmodelled")]
+
+def cfg (j : Json) : String :=
+  let exts := (arr j "exts").map extOf
+  let req : Req := ⟨str j "role", str j "op"⟩
+  (Json.mkObj [("spec", outcomeJson (Spec.effective exts req)),
+    ("impl", outcomeJson (Impl.effective GqlgenVerif.Gen.ExtOrder.facts exts req)),
+    ("factsOk", Json.bool GqlgenVerif.Gen.ExtOrder.facts.ok)]).compress
+end
+
 partial def loop (h out : IO.FS.Stream) (st : IO.Ref (Option GqlgenVerif.Schema)) : IO Unit := do
   let line ← h.getLine
   if line.isEmpty then return ()
@@ -273,6 +325,7 @@ partial def loop (h out : IO.FS.Stream) (st : IO.Ref (Option GqlgenVerif.Schema)
       match op with
       | "mirror" => pure (mirror j)
       | "chk" => pure (chk j)
+      | "cfg" => pure (cfg j)
       | "schema" => do st.set (some (Driver.ExecIO.schema j)); pure "ok"
       | "gate" => do
         match (← st.get) with
